@@ -66,7 +66,7 @@ def classify(r):
         if mo != io:
             return "model-mismatch", "impl: %s model: %s" % (io, mo)
         ms, ist = stats(m), stats(i)
-        for k in ("steps", "halt", "gc"):
+        for k in ("steps", "halt", "gc", "hash"):
             if k in ms and k in ist and ms[k] != ist[k]:
                 return "model-mismatch", "stat %s impl=%s model=%s" % (k, ist[k][:80], ms[k][:80])
     return "ok", ""
